@@ -20,6 +20,16 @@ from ..recipe import gen_ctrl
 PID = "C12"
 GOOD_ADDR = "AAAAAAAAAAAAAAAAAAAAAAAAAAAAAAAAAAAAAAAAAAAAAAAAAAAAY5HFKQ"
 
+
+def _tmpl_like_addr():
+    import base64
+    from algosdk import encoding as sdkenc
+    pk = base64.b32decode("TMPL" + "A" * 52)[:32]
+    return sdkenc.encode_address(pk)
+
+
+TMPL_LIKE_ADDR = _tmpl_like_addr()
+
 SPELL = {
     "i0": lambda: pt.Int(0), "i1": lambda: pt.Int(1), "i127": lambda: pt.Int(127), "i128": lambda: pt.Int(128),
     "imax": lambda: pt.Int((1 << 64) - 1), "optin": lambda: pt.OnComplete.OptIn, "pay": lambda: pt.TxnType.Payment,
@@ -36,6 +46,8 @@ SPELL = {
     # literals with blanks at their ends: the blanks belong to the value
     "methsp": lambda: pt.MethodSignature("f()void "), "methtab": lambda: pt.MethodSignature("\tf()void"),
     "bsp": lambda: pt.Bytes(" a "),
+    # a real address whose text begins like a template placeholder (no underscore: still an address)
+    "addr_tmpl": lambda: pt.Addr(TMPL_LIKE_ADDR),
 }
 RANK_POOL = {
     "s0": lambda: pt.Int(0), "s1": lambda: pt.Int(1), "s2": lambda: pt.Int(2), "s3": lambda: pt.Int(3),
@@ -45,7 +57,7 @@ RANK_POOL = {
     "be": lambda: pt.Bytes("e"), "bf": lambda: pt.Bytes("base64", "Zg=="), "bT": lambda: pt.Tmpl.Bytes("TMPL_Y"),
 }
 INTS = ["i0", "i1", "i127", "i128", "imax", "optin", "pay", "ti"]
-BYTES = ["ba", "b16", "b64", "b32", "be", "be16", "addr", "meth", "tb", "bq", "bu", "bs", "bmeth", "baddr", "b0x", "btm", "methsp", "methtab", "bsp"]
+BYTES = ["ba", "b16", "b64", "b32", "be", "be16", "addr", "meth", "tb", "bq", "bu", "bs", "bmeth", "baddr", "b0x", "btm", "methsp", "methtab", "bsp", "addr_tmpl"]
 
 
 def seq_program(names):
